@@ -6,7 +6,7 @@
    executable scheduler `life_model`; see DESIGN 4/C15. *)
 From Coq Require Import List.
 Import ListNotations.
-From GR Require Import Lifecycle LifecycleFacts LifecycleThms.
+From GR Require Import Lifecycle LifecycleFacts LifecycleThms LifecycleLive.
 
 (* (0) the invariant holds in every state reachable from a fresh server under every schedule, any number of clients *)
 Theorem C15_invariant_all_schedules : forall p t ls, Inv (lrun (init p t) ls).
@@ -35,6 +35,38 @@ Theorem C15_registry_exact : forall s, Inv s -> pc s <> PStop4 ->
   forall id, In id (registry s) <-> exists c, In c (conns s) /\ ct_id c = id /\ ct_st c = CRegistered.
 Proof. exact registry_exact. Qed.
 Print Assumptions C15_registry_exact.
+
+(* (4) Stop terminates.  In any state reachable under any schedule in which Stop has closed the listeners and not yet
+   returned (stop_wait), every execution — whatever the accept loops, the connection goroutines and the clients do, in
+   whatever order — has at most `mu s` steps (mu = Stop's remaining phases + 2 per tracked and 1 per registered connection
+   goroutine + live accept loops), at its end Stop has returned or some step is enabled (no deadlock), and while Stop
+   waits for the connection goroutines every socket is closed, so no step it waits for is a peer's to take.  Hence every
+   maximal execution ends with Stop returned.  (`exec` follows the system only while Stop is waiting.) *)
+Theorem C15_stop_terminates : forall p t sched ls s',
+  let s := lrun (init p t) sched in
+  stop_wait (pc s) = true -> exec s ls = Some s' ->
+  length ls <= mu s /\ (pc s' = PStopped \/ exists l s'', lstep s' l = Some s'') /\
+  (pc s' = PStop4 -> forall c, In c (conns s') -> ct_open c = false).
+Proof. exact stop_returns_under_every_schedule. Qed.
+Print Assumptions C15_stop_terminates.
+
+(* every step taken while Stop waits strictly decreases the measure; Stop's own first steps never wait *)
+Theorem C15_stop_measure_decreases : forall s l s', Inv s -> stop_wait (pc s) = true -> lstep s l = Some s' -> mu s' < mu s.
+Proof. exact stop_measure_decreases. Qed.
+Print Assumptions C15_stop_measure_decreases.
+
+Theorem C15_stop_first_steps_enabled : forall s,
+  (pc s = PRunning -> lstep s LStopBegin <> None) /\
+  (pc s = PStop1 -> exists s', lstep s LStopCloseLis = Some s' /\ stop_wait (pc s') = true).
+Proof. intros s. split; [apply stop_begin_enabled|apply stop_close_lis_enabled]. Qed.
+Print Assumptions C15_stop_first_steps_enabled.
+
+Example C15_ex_live :
+  let s := lrun (init true true) [LStartBegin; LStartOpen; LStartSpawnPlain; LStartSpawnTLS; LAcceptOk 0; LAcceptOk 1; LAcceptOk 0; LAdmit 2;
+                                  LStopBegin; LStopCloseLis] in
+  stop_wait (pc s) = true /\ mu s = 10 /\
+  exists ls s', exec s ls = Some s' /\ pc s' = PStopped /\ length ls = 9.
+Proof. exact live_ex. Qed.
 
 Example C15_ex :
   let ls := [LStartBegin; LStartOpen; LStartSpawnPlain; LStartSpawnTLS; LAcceptOk 0; LAcceptOk 1; LAdmit 2; LHandshakeFail 3;
